@@ -281,7 +281,7 @@ func (c19) Info() core.Info {
 		ID:    "C19",
 		Title: "Independent statements can run concurrently without races or interference",
 		Level: "model_checking",
-		Rule: "14 scenarios (each in three iteration-mode assignments: mixed, all row, all batch) of 2..3 statement threads chosen so that the threads meet on every piece of library-wide state (function and aggregate registries, batch size, cache switch, error padding, name tables) and on shared storage (readers with a put and a delete on disjoint key ranges); each thread parses, plans, executes and renders on its own goroutine under a cooperative scheduler whose scheduling points are every Storage/Cursor call and every access to a package-level variable (instrumented at check time into a build overlay); ALL schedules with at most 2 (thorough: 3) preemptions are explored depth-first (iterative context bounding). " +
+		Rule: fmt.Sprint(len(c19BaseScenarios())) + " scenarios (each in three iteration-mode assignments: mixed, all row, all batch) of 2..3 statement threads chosen so that the threads meet on every piece of library-wide state (function and aggregate registries, batch size, cache switch, error padding, name tables) and on shared storage (readers with a put and a delete on disjoint key ranges); each thread parses, plans, executes and renders on its own goroutine under a cooperative scheduler whose scheduling points are every Storage/Cursor call and every access to a package-level variable (instrumented at check time into a build overlay); ALL schedules with at most 2 (thorough: 3) preemptions are explored depth-first (iterative context bounding). " +
 			"Oracle on every schedule: each thread's rows / errors / rendered messages equal its solo run and the final stores equal a sequential run; conflict monitor: no package-level variable is written by one thread and accessed by another (kvql has no synchronisation, so such a pair is a data race), and - heap-write monitor, instrumented the same way at every assignment through a pointer, field, slice element or map element of the library, with the collector off during an execution - no heap object is written by two different statement threads within one execution; no panic. A supporting, free-running pass of the same bodies under the Go race detector (not the deciding step) looks for unsynchronised heap sharing the scheduler cannot see. Non-trivial: schedules that switch between live threads. Distinct: (scenario, schedule).",
 		Assumptions: []string{
 			"the storage is thread-safe (the cooperative scheduler switches only at storage-call boundaries; the free-running pass uses a mutex-protected store)",
